@@ -9,22 +9,39 @@ from hypothesis import strategies as st
 from .project import ATOMIC, INT_BITS, Project
 
 
+def _respell(n, how):
+    """the number n written in a way int() accepts but the tag syntax does not know"""
+    d = str(n)
+    if how == "arabic":
+        return "".join(chr(0x0660 + int(c)) for c in d)
+    if how == "fullwidth":
+        return "".join(chr(0xFF10 + int(c)) for c in d)
+    if how == "underscore":
+        return d[0] + "_" + d[1:] if len(d) > 1 else d + "_"
+    if how == "plus":
+        return "+" + d
+    if how == "blank":
+        return " " + d
+    return d + " "
+
+
 def render(r):
+    sp = r.get("respell") or [None, None]
     s = (f"Program:{r['scope']}." if r.get("scope") else "") + r["tag"]
     if r.get("idx") is not None:
-        s += "[" + ",".join(str(i) for i in r["idx"]) + "]"
+        s += "[" + ",".join((_respell(i, sp[1]) if sp[0] == "idx" and k == 0 else str(i)) for k, i in enumerate(r["idx"])) + "]"
     for name, idx in r.get("path", []):
         s += "." + name
         if idx is not None:
             s += f"[{idx}]"
     if r.get("bit") is not None:
-        s += f".{r['bit']}"
+        s += "." + (_respell(r["bit"], sp[1]) if sp[0] == "bit" else str(r["bit"]))
     if r.get("mangle"):
         # a name whose index is not closed properly ("da[63", "da[6x"): not the name of anything the controller holds
         k = s.rfind("]")
         s = s[:k] + {"drop": "", "x": "x", "brace": "}", "open": "["}[r["mangle"]] + s[k + 1:]
     if r.get("count") is not None:
-        s += "{%d}" % r["count"]
+        s += "{%s}" % (_respell(r["count"], sp[1]) if sp[0] == "count" else "%d" % r["count"])
     return s
 
 
@@ -339,7 +356,9 @@ def invalidate(draw, p, r, op):
     if t["dims"] and t["type"] == "DWORD":
         kinds += ["negative-index"]
     if t["dims"]:
-        kinds += ["negative-count", "mangled-index"]
+        kinds += ["negative-count", "mangled-index", "digits"]
+    elif t["type"] in INT_BITS:
+        kinds += ["digits"]
     if t["type"] in ("DWORD", "BOOL"):
         kinds += ["bit-of-bool"]
     if t["type"] in INT_BITS:
@@ -395,6 +414,33 @@ def invalidate(draw, p, r, op):
         r["mangle"] = draw(st.sampled_from(["drop", "drop", "x", "brace", "open"]))
         if op == "write":
             r["value"] = True if t["type"] == "DWORD" else draw(value_for(p, t["type"], allow_long=False))
+    elif kind == "digits":
+        # numbers in a tag are decimal ASCII digits: other scripts' digits, underscores, signs and blanks do not spell an index, a bit or
+        # a count (they name nothing the controller holds)
+        how = draw(st.sampled_from(["arabic", "fullwidth", "underscore", "plus", "blank", "blank-after"]))
+        r["path"] = []
+        if t["dims"]:
+            what = draw(st.sampled_from(["idx", "idx", "count"])) if t["type"] != "DWORD" else "idx"
+            if t["type"] == "DWORD":
+                r["idx"] = [draw(st.integers(0, p.n_elements(t) * 32 - 1))]
+            else:
+                r["idx"] = [draw(st.integers(0, d - 1)) for d in t["dims"]]
+            r["bit"], r["count"] = None, (draw(st.integers(1, 3)) if what == "count" else None)
+            if what == "count":
+                total, lin = p.n_elements(t), 0
+                for i, d in zip(r["idx"], t["dims"]):
+                    lin = lin * d + i
+                r["count"] = max(1, min(r["count"], total - lin))
+            if op == "write":
+                v = True if t["type"] == "DWORD" else draw(value_for(p, t["type"], allow_long=False))
+                r["value"] = [v] * r["count"] if r["count"] else v
+        else:
+            what = "bit"
+            r["idx"], r["count"] = None, None
+            r["bit"] = draw(st.integers(0, INT_BITS[t["type"]] - 1))
+            if op == "write":
+                r["value"] = draw(st.booleans())
+        r["respell"] = [what, how]
     elif kind == "bit-of-bool":
         # a BOOL has no bits: tag.N below a BOOL or an element of a BOOL array names nothing
         if t["type"] == "DWORD":
